@@ -94,6 +94,19 @@ func verifAssert(c bool, msg string) {
 
 func verifReach(tag string) {}
 
+// verifEqBytes compares two byte slices (one equality term in the executor: no path fork per byte).
+func verifEqBytes(a, b []byte) bool {
+	if len(a) != len(b) {
+		return false
+	}
+	for i := range a {
+		if a[i] != b[i] {
+			return false
+		}
+	}
+	return true
+}
+
 // verifIte is a branch-free conditional for harness oracles (an ite term in the executor: no path fork).
 func verifIte(c bool, a, b int) int {
 	if c {
